@@ -23,7 +23,10 @@ check('C09', 'model_checking',
       'spec/Topology.tla (all end-to-end combinations, orders, tags, chains, stars of up to 6 ends, two-wire loops, with and without ground). '
       'Binding: for every final state the real CURRENT DATA block is rendered with synthetic currents and the exact integer coefficient of '
       'every pulse current in every J/E line is decoded from the text; it must equal the specification line by line, KCL is evaluated on '
-      'the decoded coefficients, unconnected ends must print E with zeros, numbered rows must be the non-junction pulses.',
+      'the decoded coefficients, unconnected ends must print E with zeros, numbered rows must be the non-junction pulses. A third of the '
+      'configurations (all in the thorough tier) is also concretised with joined ends a hair apart, distinct ends three matching tolerances '
+      'apart (also along a space diagonal) and a junction 1.5 tolerances above the ground plane: the lines must follow the documented '
+      'matching rule.',
       'Trusted: TLC, the base-5 coefficient decoding (relies on the block being linear in Mininec.current), the report parser. One recorded '
       'defect (first-end junction line of a hub wire with >= 2 neighbours) is a known finding because its one-character repair changes two '
       'golden files of the pinned suite.',
